@@ -25,6 +25,8 @@ KINDS = {
     "c_pp":    ".c",   # #error: the front end fails in every mode
     "c_parse": ".c",   # syntax error: front end fails except under -E
     "c_gen":   ".c",   # error detected while generating code (after parsing): fails except under -E
+    "c_asm":   ".c",   # the front end accepts it, but an asm statement carries text the assembler rejects:
+                       # -E and -S succeed, under -c and in link mode the `as` step of this unit fails
     "c_nx":    ".c",   # does not exist
     "c_dir":   ".c",   # unreadable: a directory (we run as root, so permission bits do not bite)
     "s":       ".s",   # assembles
@@ -35,7 +37,7 @@ KINDS = {
     "o_nx":    ".o",   # does not exist
 }
 
-C_KINDS = ("c", "c_pp", "c_parse", "c_gen", "c_nx", "c_dir")
+C_KINDS = ("c", "c_pp", "c_parse", "c_gen", "c_asm", "c_nx", "c_dir")
 S_KINDS = ("s", "s_bad", "s_nx")
 O_KINDS = ("o", "o_bad", "o_nx")
 
@@ -64,6 +66,8 @@ def c_source(kind, slot):
         return body + "int vp_bad%d( { return }\n" % slot
     if kind == "c_gen":
         return body + "void vp_bad%d(void){ 1 = 2; }\n" % slot
+    if kind == "c_asm":
+        return body + 'void vp_bad%d(void){ asm("vp_not_an_instruction %%rax, %%rbx"); }\n' % slot
     raise KeyError(kind)
 
 
@@ -136,10 +140,14 @@ class Shape:
                     producing += 1
                 elif mode == "c":
                     self.steps.append(("as", i))
+                    if k == "c_asm":
+                        self.nat_fail.append(("as", i))
                     self.tu_out[i] = opath or base_of(name) + ".o"
                     producing += 1
                 else:
                     self.steps.append(("as", i))
+                    if k == "c_asm":
+                        self.nat_fail.append(("as", i))
                     self.tu_out[i] = None
             elif k in S_KINDS:
                 if mode in ("c", "link"):
